@@ -151,6 +151,7 @@ pub mod sim {
     }
 
     pub(crate) struct GateEntry {
+        pub epoch: u64,
         pub info: GateInfo,
         pub released: Option<(Outcome, String)>,
         pub waker: Option<Waker>,
@@ -187,6 +188,28 @@ pub mod sim {
         pub(crate) static AUTO: Cell<bool> = const { Cell::new(true) };
         pub(crate) static NEXT_GATE: Cell<u64> = const { Cell::new(1) };
         pub(crate) static EVENTS: RefCell<Vec<OpEvent>> = const { RefCell::new(Vec::new()) };
+        pub(crate) static LIVE_EPOCH: Cell<u64> = const { Cell::new(0) };
+        pub(crate) static DEAD_CALLS: Cell<u64> = const { Cell::new(0) };
+    }
+
+    /// Declare which server incarnation is alive; parked calls of other incarnations are failed.
+    pub fn set_live_epoch(e: u64) {
+        LIVE_EPOCH.with(|l| l.set(e));
+        GATES.with(|g| {
+            for ent in g.borrow_mut().iter_mut() {
+                if ent.epoch != e && ent.released.is_none() {
+                    ent.released = Some((Outcome::FaultBefore, "dead-incarnation".to_string()));
+                    if let Some(w) = ent.waker.take() {
+                        w.wake();
+                    }
+                }
+            }
+        });
+    }
+
+    /// database calls attempted by dead incarnations (failed without executing)
+    pub fn dead_calls() -> u64 {
+        DEAD_CALLS.with(|d| d.get())
     }
 
     /// Forget every gate and event, restart numbering (start of a simulated world).
@@ -196,6 +219,8 @@ pub mod sim {
         NEXT_GATE.with(|n| n.set(1));
         CUR_TAG.with(|t| *t.borrow_mut() = None);
         AUTO.with(|a| a.set(true));
+        LIVE_EPOCH.with(|l| l.set(0));
+        DEAD_CALLS.with(|d| d.set(0));
     }
 
     /// In auto mode calls pass their gate at once with `Ok` (used for set-up and for reads the
@@ -257,6 +282,7 @@ struct GateFut {
     id: Option<u64>,
     info: Option<GateInfo>,
     done: bool,
+    epoch: u64,
 }
 
 impl std::future::Future for GateFut {
@@ -272,6 +298,12 @@ impl std::future::Future for GateFut {
             let mut info = self.info.take().unwrap();
             info.id = id;
             info.tag = sim::CUR_TAG.with(|t| t.borrow().clone());
+            if self.epoch != sim::LIVE_EPOCH.with(|l| l.get()) {
+                // the process this call belongs to is dead: nothing is executed
+                self.done = true;
+                sim::DEAD_CALLS.with(|d| d.set(d.get() + 1));
+                return Poll::Ready((id, Outcome::FaultBefore, "dead-incarnation".to_string()));
+            }
             if sim::AUTO.with(|a| a.get()) {
                 self.done = true;
                 let actor = info.tag.clone().unwrap_or_else(|| "setup".into());
@@ -279,7 +311,7 @@ impl std::future::Future for GateFut {
             }
             self.id = Some(id);
             sim::GATES.with(|g| {
-                g.borrow_mut().push(GateEntry { info, released: None, waker: Some(cx.waker().clone()) })
+                g.borrow_mut().push(GateEntry { epoch: self.epoch, info, released: None, waker: Some(cx.waker().clone()) })
             });
             return Poll::Pending;
         }
@@ -319,11 +351,12 @@ impl Drop for GateFut {
     }
 }
 
-fn gate(op: &'static str, coll: &str, filter: &Document) -> GateFut {
+fn gate(epoch: u64, op: &'static str, coll: &str, filter: &Document) -> GateFut {
     GateFut {
         id: None,
         info: Some(GateInfo { id: 0, tag: None, op, coll: coll.to_string(), filter: filter.clone() }),
         done: false,
+        epoch,
     }
 }
 
@@ -404,6 +437,8 @@ fn violates_unique(coll: &Coll, candidate: &Document, except_id: Option<u64>) ->
 #[derive(Clone)]
 pub struct Client {
     store: Arc<Mutex<Store>>,
+    /// which incarnation of the simulated server process this client object belongs to
+    epoch: u64,
 }
 
 impl std::fmt::Debug for Client {
@@ -415,7 +450,16 @@ impl std::fmt::Debug for Client {
 impl Client {
     /// A client on a fresh, empty in-memory store.
     pub fn sim_new() -> Client {
-        Client { store: Arc::new(Mutex::new(Store::default())) }
+        Client { store: Arc::new(Mutex::new(Store::default())), epoch: 0 }
+    }
+    /// A client of the *next* server incarnation on the same (durable) store. Calls made
+    /// through client objects of earlier incarnations fail at once and execute nothing: the
+    /// process that would have made them is dead.
+    pub fn sim_next_incarnation(&self) -> Client {
+        Client { store: self.store.clone(), epoch: self.epoch + 1 }
+    }
+    pub fn sim_epoch(&self) -> u64 {
+        self.epoch
     }
     pub async fn with_uri_str(_uri: impl AsRef<str>) -> error::Result<Client> {
         Ok(Client::sim_new())
@@ -479,7 +523,7 @@ impl<T> Collection<T> {
         index: IndexModel,
         _options: impl Into<Option<options::CreateIndexOptions>>,
     ) -> error::Result<results::CreateIndexResult> {
-        let (_g, o, _actor) = gate("create_index", &self.name, &index.keys).await;
+        let (_g, o, _actor) = gate(self.client.epoch, "create_index", &self.name, &index.keys).await;
         if o != Outcome::Ok {
             return Err(fault());
         }
@@ -511,7 +555,7 @@ impl<T> Collection<T> {
     }
 
     async fn delete_impl(&self, op: &'static str, query: Document, one: bool) -> error::Result<results::DeleteResult> {
-        let (g, o, actor) = gate(op, &self.name, &query).await;
+        let (g, o, actor) = gate(self.client.epoch, op, &self.name, &query).await;
         if o == Outcome::FaultBefore {
             log_event(self.event(g, &actor, op, &query, "fault-before"));
             return Err(fault());
@@ -558,7 +602,7 @@ impl<T> Collection<T> {
     }
 
     async fn update_impl(&self, op: &'static str, query: Document, update: Document, one: bool) -> error::Result<results::UpdateResult> {
-        let (g, o, actor) = gate(op, &self.name, &query).await;
+        let (g, o, actor) = gate(self.client.epoch, op, &self.name, &query).await;
         if o == Outcome::FaultBefore {
             log_event(self.event(g, &actor, op, &query, "fault-before"));
             return Err(fault());
@@ -599,7 +643,7 @@ impl<T: Serialize> Collection<T> {
     ) -> error::Result<results::InsertOneResult> {
         let mut d = bson::to_document(doc.borrow()).map_err(|e| error::Error { msg: e.to_string() })?;
         let probe = d.clone();
-        let (g, o, actor) = gate("insert_one", &self.name, &probe).await;
+        let (g, o, actor) = gate(self.client.epoch, "insert_one", &self.name, &probe).await;
         if o == Outcome::FaultBefore {
             log_event(self.event(g, &actor, "insert_one", &probe, "fault-before"));
             return Err(fault());
@@ -632,7 +676,7 @@ impl<T: Serialize> Collection<T> {
         _options: impl Into<Option<options::ReplaceOptions>>,
     ) -> error::Result<results::UpdateResult> {
         let new_doc = bson::to_document(replacement.borrow()).map_err(|e| error::Error { msg: e.to_string() })?;
-        let (g, o, actor) = gate("replace_one", &self.name, &query).await;
+        let (g, o, actor) = gate(self.client.epoch, "replace_one", &self.name, &query).await;
         if o == Outcome::FaultBefore {
             log_event(self.event(g, &actor, "replace_one", &query, "fault-before"));
             return Err(fault());
@@ -678,7 +722,7 @@ impl<T: DeserializeOwned> Collection<T> {
         _options: impl Into<Option<options::FindOneOptions>>,
     ) -> error::Result<Option<T>> {
         let filter = filter.into().unwrap_or_default();
-        let (g, o, actor) = gate("find_one", &self.name, &filter).await;
+        let (g, o, actor) = gate(self.client.epoch, "find_one", &self.name, &filter).await;
         if o != Outcome::Ok {
             log_event(self.event(g, &actor, "find_one", &filter, "fault-before"));
             return Err(fault());
@@ -707,7 +751,7 @@ impl<T: DeserializeOwned> Collection<T> {
         _options: impl Into<Option<options::FindOptions>>,
     ) -> error::Result<Cursor<T>> {
         let filter = filter.into().unwrap_or_default();
-        let (g, o, actor) = gate("find", &self.name, &filter).await;
+        let (g, o, actor) = gate(self.client.epoch, "find", &self.name, &filter).await;
         if o != Outcome::Ok {
             log_event(self.event(g, &actor, "find", &filter, "fault-before"));
             return Err(fault());
